@@ -129,6 +129,7 @@ func (s *Server) Serve(l net.Listener) error {
 		s.wg.Add(1)
 		go func() {
 			defer s.wg.Done()
+			verifYield("serve.conn")
 
 			err := s.handleConn(newConn(c, s))
 			if err != nil {
